@@ -105,6 +105,37 @@ func c19Rhp2Sweep(c *fw.Ctx, g *c11Gen, k c11Consts, model *c11Model) {
 			if rerr != nil && !fresh() {
 				return
 			}
+			// ---- (a') the same message against a receiver whose limit is EXACTLY the message's length (the value of
+			// its length prefix, measured above as bytes read minus the prefix), and that limit plus 1 and plus 7:
+			// a message within the receiver's stated limit must be admitted. (Only above the 4096-byte padding.)
+			if rerr == nil {
+				frame := int(sess.renter.BytesRead() - r0)
+				if frame > 4096 {
+					for _, slack := range []int{0, 1, 7} {
+						lim := uint64(frame - 8 + slack)
+						sess.renter.SetDeadline(time.Now().Add(3 * time.Second))
+						sess.host.SetDeadline(time.Now().Add(3 * time.Second))
+						var got2 rhp2.RPCSettingsResponse
+						var rerr2 error
+						var wg2 sync.WaitGroup
+						wg2.Add(2)
+						go func() { defer wg2.Done(); sess.host.WriteResponse(obj) }()
+						go func() { defer wg2.Done(); rerr2 = sess.renter.ReadResponse(&got2, lim) }()
+						wg2.Wait()
+						res.Eval(fmt.Sprintf("rhp2-size response %d tight+%d", size, slack), true)
+						res.Count("rhp2:size-sweep-response-tight-limit")
+						if rerr2 != nil || !bytes.Equal(got2.Settings, obj.Settings) {
+							c19Violate(c, "c19-rhp2-valid-rejected:at-receiver-limit",
+								fmt.Sprintf("an rhp/v2 response whose message length is %d bytes is refused by a receiver whose stated limit is %d: %v", frame-8, lim, rerr2),
+								map[string]any{"kind": "rhp2-tight", "payloadLen": size, "limit": lim}, "delivered", fmt.Sprint(rerr2))
+							if !fresh() {
+								return
+							}
+							break
+						}
+					}
+				}
+			}
 		}
 		// ---- (b) request object: 8-byte prefix + settings (any ProtocolObject may be a request)
 		if size >= 8 {
